@@ -366,7 +366,7 @@ theorem nodupQ (c : Cfg) : ∀ (f : Nat) (call : Call) (w : World),
       simp only [run] at hrun
       subst hrun
       simp only at h ⊢
-      exact nodup_append_filter _ _ (ih _ _ h (by simp)) hi
+      exact nodup_append_filter _ _ hi (ih _ _ h (by simp))
 
 /-! ### L5: inside an open batch what is queued stays queued, whatever a statement does -/
 
@@ -397,14 +397,10 @@ theorem deferred_kept (c : Cfg) : ∀ (f : Nat) (call : Call) (w : World),
       simp only [run] at hrun
       subst hrun
       simp only
-      refine ⟨fun e he => List.mem_append_right _ he, ?_⟩
+      refine ⟨fun e he => List.mem_append_left _ he, ?_⟩
       intro x hx
       simp only [List.map_append, List.mem_append]
-      by_cases hh : hasId (run c f (Call.update (dedupKeys (List.map (fun p => (p, getVal w p)) ps)))
-          { w with events := [], queued := [], trigger := true }).2.1.queued x.id = true
-      · exact Or.inl ((hasId_iff _ _).1 hh)
-      · right
-        exact List.mem_map.2 ⟨x, List.mem_filter.2 ⟨hx, by simpa using hh⟩, rfl⟩
+      exact Or.inl (List.mem_map.2 ⟨x, hx, rfl⟩)
 
 /-! ### L9: a queued callback's own assignments are not dispatched while it is running -/
 
